@@ -190,3 +190,6 @@ reg('C08', 'codec', 'rule_vlq_field_reset')       # the attached map is read by 
 reg('C17', 'panics', 'rule_lookup_unwrap', ('dev', 'release'))   # a name / source index beyond a supplied map's tables must not panic
 reg('C08', 'streams', 'rule_active_cleared')      # a zero-width segment does not stay active past the segment that closes it
 reg('C19', 'ropeinv', 'rule_unchecked_sibling', ('dev', 'release'))   # the unchecked slicer picks and cuts pieces like its checked sibling
+# ---- round 10
+reg('C04', 'offsets', 'rule_tagged_offset')       # a mapped segment starts on the output character its text starts on: the column correction of ReplaceSource
+reg('C11', 'offsets', 'rule_tagged_offset')       # segments in increasing generated position before the end of source(): a stale correction moves columns backwards / past the end
